@@ -42,7 +42,12 @@ def run_level_job(job):
     tally = decide.Tally()
     out = dict(violations=[], inconclusive=[], obligations=0)
     try:
-        c = tv.compile_template(build_python(spec), vectorize=job['vectorize'], step_size=float(DT), solver='euler')
+        if job.get('pop'):
+            from . import c16
+            ct0 = c16.build_population(c16.make_model(*job['pop']))
+        else:
+            ct0 = build_python(spec)
+        c = tv.compile_template(ct0, vectorize=job['vectorize'], step_size=float(DT), solver='euler')
     except tv.CompileError as e:
         return dict(status='compile-raises', error=str(e))
     bufs = tvdelay.find_state_carrying_args(c)
